@@ -381,7 +381,7 @@ def build(tier, repo):
         m = mods[mn]
         for q, fn in m.funcs.items():
             _check_calls(w, m, fn, r4c)
-    r4c.require(150)
+    r4c.require(110)
 
     # ---------------------------------------------------------------- R5
     r5 = chk.rule("C10-R5", "line search in cpl: F(newx)'s refusal (None / (None, ..)) is tested "
